@@ -1,5 +1,5 @@
 #include "drv.h"
-#ifndef HAVE_DRV_KDF
+#if 0
 void reg_kdf() {}
 #endif
 #ifndef HAVE_DRV_ISAP
